@@ -118,45 +118,56 @@ Record numlit := mkNumlit {
 
 (* optional minus; "0" or a nonzero digit followed by digits; optionally "." digits; optionally e/E, an
    optional sign and digits -- the optional groups are taken only when complete (NUMBER_RE) *)
+Definition scan_sign (s : string) : bool * string :=
+  match s with
+  | String c r => if N.eqb (N_of_ascii c) 45 then (true, r) else (false, s)
+  | EmptyString => (false, s)
+  end.
+
+Definition scan_int (s : string) : option (list N * string) :=
+  match s with
+  | String c r =>
+      if N.eqb (N_of_ascii c) 48 then Some ([0%N], r)
+      else if is_digit c then Some (scan_digits s)
+      else None
+  | EmptyString => None
+  end.
+
+Definition scan_frac (s : string) : option (list N) * string :=
+  match s with
+  | String c r =>
+      if (N.eqb (N_of_ascii c) 46 && starts_with_digit r)%bool
+      then let (u, r') := scan_digits r in (Some u, r')
+      else (None, s)
+  | EmptyString => (None, s)
+  end.
+
+Definition scan_exp (s : string) : option (bool * list N) * string :=
+  match s with
+  | String c r =>
+      if (N.eqb (N_of_ascii c) 101 || N.eqb (N_of_ascii c) 69)%bool then
+        match r with
+        | String sg r' =>
+            if (N.eqb (N_of_ascii sg) 45 || N.eqb (N_of_ascii sg) 43)%bool then
+              if starts_with_digit r'
+              then let (u, r'') := scan_digits r' in (Some (N.eqb (N_of_ascii sg) 45, u), r'')
+              else (None, s)
+            else if is_digit sg
+            then let (u, r'') := scan_digits r in (Some (false, u), r'')
+            else (None, s)
+        | EmptyString => (None, s)
+        end
+      else (None, s)
+  | EmptyString => (None, s)
+  end.
+
 Definition scan_number (s : string) : option (numlit * string) :=
-  let (neg, s1) := match s with
-                   | String c r => if N.eqb (N_of_ascii c) 45 then (true, r) else (false, s)
-                   | EmptyString => (false, s)
-                   end in
-  let ip := match s1 with
-            | String c r =>
-                if N.eqb (N_of_ascii c) 48 then Some ([0%N], r)
-                else if is_digit c then Some (scan_digits s1)
-                else None
-            | EmptyString => None
-            end in
-  match ip with
+  let (neg, s1) := scan_sign s in
+  match scan_int s1 with
   | None => None
   | Some (iu, s2) =>
-      let (fp, s3) := match s2 with
-                      | String c r =>
-                          if (N.eqb (N_of_ascii c) 46 && starts_with_digit r)%bool
-                          then let (u, r') := scan_digits r in (Some u, r')
-                          else (None, s2)
-                      | EmptyString => (None, s2)
-                      end in
-      let (ex, s4) := match s3 with
-                      | String c r =>
-                          if (N.eqb (N_of_ascii c) 101 || N.eqb (N_of_ascii c) 69)%bool then
-                            match r with
-                            | String sg r' =>
-                                if (N.eqb (N_of_ascii sg) 45 || N.eqb (N_of_ascii sg) 43)%bool then
-                                  if starts_with_digit r'
-                                  then let (u, r'') := scan_digits r' in (Some (N.eqb (N_of_ascii sg) 45, u), r'')
-                                  else (None, s3)
-                                else if is_digit sg
-                                then let (u, r'') := scan_digits r in (Some (false, u), r'')
-                                else (None, s3)
-                            | EmptyString => (None, s3)
-                            end
-                          else (None, s3)
-                      | EmptyString => (None, s3)
-                      end in
+      let (fp, s3) := scan_frac s2 in
+      let (ex, s4) := scan_exp s3 in
       Some (mkNumlit neg iu fp ex, s4)
   end.
 
